@@ -15,13 +15,13 @@ RULE = ("(encoder level) for every setting of ET, DT and the register-addressed 
         "ALL representable values of 1- and 2-byte settings and boundary + random values of 4/6/8/12-byte settings are encoded by the "
         "real encode_value, compared with an independent reference encoding, and decoded back by the real read_value; (end to end) "
         "write_setting(id, v) then read_setting(id) through the real transports (Modbus RTU/UDP, Modbus/TCP, AA55) against a simulated "
-        "register file with arbitrary prior contents that change between writes on the same inverter object: exactly one write frame, "
+        "register file with arbitrary (and boundary) prior contents that change between writes on the same inverter object, also on a kept-alive connection to an inverter answering 0.6 timeouts late: exactly one write frame, "
         "addressed to the setting's registers, carrying the reference encoding; no other register changes (other half of a shared "
         "register preserved); the value reads back; distinct = distinct (family, transport, setting id, value class) tuples")
 ASSUMPTIONS = ["values whose encoding is the type's 'no value' sentinel (Integer 65535, Voltage/Current 6553.5, Long 2^32-1) are "
                "outside the readable domain: only the write part is asserted for them",
                "ES: only the register-addressed settings (eco-mode groups and switches; 011A/0239 over AA55 for v1, Modbus for v2)"]
-MUST = ["encoder_values", "e2e_writes", "e2e_readbacks", "byte_settings_rmw", "negative_values", "multi_register_writes",
+MUST = ["dt_phase_pairs", "encoder_values", "e2e_writes", "e2e_readbacks", "byte_settings_rmw", "negative_values", "multi_register_writes",
         "aa55_writes", "tcp_writes", "settings_covered"]
 EXHAUSTIVE = {"quick": False, "thorough": False}
 
@@ -274,12 +274,53 @@ def e2e_part(spec, part):
                  "last_writes": [(w[1], [hex(x) for x in w[2]]) for w in sim.writes[-3:]]})
 
 
+def dt_pair_part(spec, part):
+    """DT documents grid_export_limit as Long@40328 (W) on single-phase and Integer@40336 (%) on three-phase models: with one object of
+    each kind alive, a write on either must still go to ITS registers only."""
+    g = env.goodwe()
+    rnd = random.Random(spec["seed"])
+    for i in range(spec["n"]):
+        simA, simB = models.dt_sim("invA", tag=rnd.choice(("DSN", "MSU", "NSU"))), models.dt_sim("invB", tag=rnd.choice(("DTU", "DTS", "DTN")))
+        order = rnd.choice(("AB", "BA"))
+        vA, vB = rnd.randrange(0, 2 ** 31), rnd.randrange(0, 65535)
+        out = {}
+
+        async def flow(loop):
+            A, B = g.DT("invA", 8899, 0, 1, 0), g.DT("invB", 8899, 0, 1, 0)
+            for x in order:
+                await (A if x == "A" else B).read_device_info()
+            for x in order[::-1] if rnd.random() < 0.5 else order:
+                inv, v = (A, vA) if x == "A" else (B, vB)
+                await inv.write_setting("grid_export_limit", v)
+                out[x] = await inv.read_setting("grid_export_limit")
+
+        run = engine.run_custom({("invA", 8899): simA, ("invB", 8899): simB}, flow)
+        part.evaluations += 1
+        part.count("dt_phase_pairs")
+        part.see(f"dtpair|{order}")
+        case = {"dtpair": True, "seed": spec["seed"], "i": i}
+        if run.stop or run.error is not None:
+            part.violate("C17/DT/run-failed", f"DT pair: {run.stop or repr(run.error)[:120]}", case)
+            continue
+        wa = [(w[1], w[2]) for w in simA.writes]
+        wb = [(w[1], w[2]) for w in simB.writes]
+        if wa != [(40328, [vA >> 16, vA & 0xFFFF])]:
+            part.violate("C17/DT/wrong-write/Long", f"single-phase DT (next to a three-phase one, device info order {order}): "
+                         f"write_setting('grid_export_limit', {vA}) produced writes {wa}, expected one multi write of 2 registers at 40328", case)
+        if wb != [(40336, [vB])]:
+            part.violate("C17/DT/wrong-write/Integer", f"three-phase DT (next to a single-phase one, order {order}): "
+                         f"write_setting('grid_export_limit', {vB}) produced writes {wb}, expected one write at 40336", case)
+        if out.get("A") != vA or out.get("B") != vB:
+            part.violate("C17/DT/readback-differs/pair", f"DT pair (order {order}): read back {out} instead of A={vA}, B={vB}", case)
+
+
 def plan(tier, seed):
     specs = []
     nsh = 4 if tier == "quick" else 16
     for i in range(nsh):
         specs.append({"mode": "enc", "seed": f"{seed}:C17:enc:{i}", "shards": nsh, "shard": i, "n": 300 if tier == "quick" else 2000,
                       "full": tier != "quick"})
+    specs.append({"mode": "dtpair", "seed": f"{seed}:C17:dtpair", "n": 20 if tier == "quick" else 200})
     per = 10 if tier == "quick" else 120
     for fam, port, variant in (("ET", 8899, "v2"), ("ET", 502, "v2"), ("ET", 8899, "v1"), ("ET", 502, "v1"), ("DT", 8899, "v2"),
                                ("DT", 502, "v2"), ("ES", 8899, "v1"), ("ES", 8899, "v2")):
@@ -292,13 +333,15 @@ def plan(tier, seed):
 
 def run_shard(spec):
     part = Part()
-    (encoder_part if spec["mode"] == "enc" else e2e_part)(spec, part)
+    {"enc": encoder_part, "e2e": e2e_part, "dtpair": dt_pair_part}[spec["mode"]](spec, part)
     return part
 
 
 def replay(case):
     part = Part()
-    if case.get("e2e"):
+    if case.get("dtpair"):
+        dt_pair_part({"seed": case["seed"], "n": case["i"] + 1}, part)
+    elif case.get("e2e"):
         e2e_part(case["spec"], part)
     else:
         encoder_part({"seed": "replay", "shards": 1, "shard": 0, "n": 300, "full": True}, part)
